@@ -1001,6 +1001,8 @@ class Segment:
             for fname, fn in patched:
                 setattr(mod, fname, fn)
         self.probe("randattr_rng_calls", simrandom.calls)
+        if op["mode"] != "seeded" and simrandom.calls:
+            self.probe("fault_fired.rng_" + op["mode"])
         after = self.bridge.observe(entry["obj"])
         entry["version"] += 1
         if dom is None:
